@@ -188,6 +188,36 @@ def run(ctx):
             if m[a][b] <= 0 and m[b][c] <= 0 and m[a][c] > 0:
                 viol(K("intransitive"), "a<=b, b<=c but a>c for a=`%s` b=`%s` c=`%s`" % (tx[a], tx[b], tx[c]), {"rules": [tx[a], tx[b], tx[c]]})
                 break
+    # --- every shipped abstraction as an include rule: complete comparison matrix --------------
+    import os
+    from .common import REPO
+    incs = set()
+    for base in (os.path.join(REPO, "apparmor.d", "abstractions"), "/etc/apparmor.d/abstractions"):
+        for dp, dns, fns in os.walk(base):
+            for fn in fns:
+                rel = os.path.relpath(os.path.join(dp, fn), os.path.dirname(base))
+                incs.add("include <%s>" % rel)
+    incs = sorted(incs)
+    incs += ["include if exists <%s>" % x[len("include <"):-1] for x in incs[:40]] + ["include \"/etc/apparmor.d/local/x\""]
+    rep = worker.run_batch(ctx, "aa", [{"id": "inc", "do": "compare", "rules": ["  " + t + "\n\n" for t in incs]}], timeout=600)[0]
+    if "ok" in rep:
+        m = rep["ok"]["matrix"]
+        n = len(incs)
+        wins = [sum(1 for j in range(n) if m[i][j] is not None and m[i][j] < 0) for i in range(n)]
+        order = sorted(range(n), key=lambda i: -wins[i])
+        for a in range(n):
+            for b in range(a + 1, n):
+                i, j = order[a], order[b]
+                ctx.evaluations += 1
+                if m[i][j] != -m[j][i]:
+                    viol("C11/antisymmetry/include", "cmp(a,b)=%s but cmp(b,a)=%s for a=`%s` b=`%s`" % (m[i][j], m[j][i], incs[i], incs[j]), {"rules": [incs[i], incs[j]]})
+                elif m[i][j] == 0:
+                    viol("C11/equal-but-different/include", "cmp=0 for different rules `%s` and `%s`" % (incs[i], incs[j]), {"rules": [incs[i], incs[j]]})
+                elif m[i][j] > 0:
+                    viol("C11/intransitive/include", "the comparison of includes is not consistent with any linear order: `%s` has more predecessors than `%s` but compares greater" % (incs[i], incs[j]),
+                         {"rules": [incs[i], incs[j]]})
+        ctx.nontrivial.add(digest("include-matrix", str(n)))
+        ctx.extra["include_matrix"] = n
     # --- lists ----------------------------------------------------------------------------
     lists = []
     for _ in range(n_lists):
